@@ -444,57 +444,27 @@ theorem roundingMode_spec (hw : 0 < w) {a : List Nat} (ha : Wf w a) {t : Nat} (h
              · exfalso; omega
              · exact h)
 
-/-- `operator<<=` of blockbinary with a positive count: times 2^s modulo the STORAGE (no MSU mask — defect D7) -/
-theorem shlPos_spec (hw : 0 < w) (hn : 0 < n) {a : List Nat} (ha : Shape w n a) {s : Nat} (hs : 0 < s) (hsn : s ≤ n) :
-    Shape w n (shlPos w n a s) ∧ toNat w (shlPos w n a s) = (toNat w a * 2 ^ s) % 2 ^ (w * nrBlocks w n) := by
-  unfold shlPos
-  rw [if_neg (by omega)]
-  simp only
-  have hk := ha.1
-  by_cases hsw : s ≥ w
-  · simp only [hsw, if_true, decide_true, Bool.true_and]
-    have hs1 : s - s / w * w = s % w := by
-      have := Nat.div_add_mod s w; rw [Nat.mul_comm] at this; omega
-    rw [hs1]
-    have hsh1 : Shape w n (shlBlocks a (s / w)) := ⟨by rw [shlBlocks_length]; exact hk, shlBlocks_wf ha.2 _⟩
-    have hv1 := toNat_shlBlocks ha.2 (s / w)
-    rw [hk] at hv1
-    by_cases h0 : s % w = 0
-    · have hb : (s % w == 0) = true := by simp [h0]
-      rw [hb, if_pos rfl]
-      refine ⟨hsh1, ?_⟩
-      rw [hv1]
-      have : s = w * (s / w) := by have := Nat.div_add_mod s w; omega
-      rw [← this]
-    · have hb : (s % w == 0) = false := by simp [h0]
-      rw [hb, if_neg (by simp)]
-      have hlt : s % w < w := Nat.mod_lt _ hw
-      have hsh2 : Shape w n (shlBits w (s % w) 0 (shlBlocks a (s / w))) :=
-        ⟨by rw [shlBits_length]; exact hsh1.1, shlBits_wf (by omega) hlt 0 _ (Nat.two_pow_pos w) hsh1.2⟩
-      refine ⟨hsh2, ?_⟩
-      rw [toNat_shlBits (by omega) hlt 0 _ (Nat.two_pow_pos w) hsh1.2, hsh1.1, Nat.zero_div, Nat.add_zero, hv1,
-        Nat.mod_mul_mod, Nat.mul_assoc, ← Nat.pow_add, Nat.div_add_mod]
-  · have hsw' : ¬ s ≥ w := hsw
-    simp only [hsw', if_false, decide_false, Bool.false_and, Nat.zero_mul, Nat.sub_zero]
-    rw [if_neg (by simp)]
-    have hlt : s < w := by omega
-    have hsh2 : Shape w n (shlBits w s 0 a) := ⟨by rw [shlBits_length]; exact hk, shlBits_wf hs hlt 0 _ (Nat.two_pow_pos w) ha.2⟩
-    refine ⟨hsh2, ?_⟩
-    rw [toNat_shlBits hs hlt 0 _ (Nat.two_pow_pos w) ha.2, hk, Nat.zero_div, Nat.add_zero]
+/-- after the repair 433c6a0 blockbinary's `<<=` is integer's `<<=` (both exits mask the MSU) -/
+theorem shlPos_eq_integer (a : List Nat) (s : Nat) : shlPos w n a s = Integer.shlPos w n a s := rfl
 
-theorem shl_one_spec (hw : 0 < w) (hn : 0 < n) {a : List Nat} (ha : Shape w n a) :
-    Shape w n (shl w n a 1) ∧ toNat w (shl w n a 1) % 2 ^ n = (toNat w a % 2 ^ n * 2) % 2 ^ n := by
+/-- `operator<<=` of blockbinary with a positive count: canonical result, times 2^s modulo 2^n -/
+theorem shlPos_spec (hw : 0 < w) (hn : 0 < n) {a : List Nat} (ha : Canon w n a) {s : Nat} (hs : 0 < s) :
+    Canon w n (shlPos w n a s) ∧ toNat w (shlPos w n a s) = (toNat w a * 2 ^ s) % 2 ^ n := by
+  rw [shlPos_eq_integer]; exact Integer.shlPos_spec hw hn ha hs
+
+theorem shl_one_spec (hw : 0 < w) (hn : 0 < n) {a : List Nat} (ha : Canon w n a) :
+    Canon w n (shl w n a 1) ∧ toNat w (shl w n a 1) % 2 ^ n = (toNat w a % 2 ^ n * 2) % 2 ^ n := by
   have e : shl w n a 1 = shlPos w n a 1 := by
     unfold shl; simp
-  obtain ⟨hs, hv⟩ := shlPos_spec hw hn ha (by omega : 0 < 1) (by omega)
+  obtain ⟨hs, hv⟩ := shlPos_spec hw hn ha (by omega : 0 < 1)
   rw [e]
   refine ⟨hs, ?_⟩
-  rw [hv, Nat.mod_mod_of_dvd _ (pow_dvd_storage hw hn), Nat.pow_one, Nat.mod_mul_mod]
+  rw [hv, Nat.mod_mod, Nat.pow_one, Nat.mod_mul_mod]
 
 /-- invariant of the shift-and-add loop of `urmul2` after the bits below `i` of X have been consumed -/
 theorem urmul2_loop (hw : 0 < w) (hn : 0 < n) (h64 : w ≠ 64 ∨ nrBlocks w (2 * n) = 1) {an : List Nat} (han : Wf w an)
     {X Y : Nat} (hX : toNat w an = X) (hXY : X * Y < 2 ^ (2 * n)) :
-    ∀ (m i : Nat) (res mm : List Nat), i + m ≤ n + 1 → Canon w (2 * n) res → Shape w (2 * n) mm →
+    ∀ (m i : Nat) (res mm : List Nat), i + m ≤ n + 1 → Canon w (2 * n) res → Canon w (2 * n) mm →
       toNat w res = (X % 2 ^ i) * Y → toNat w mm % 2 ^ (2 * n) = (Y * 2 ^ i) % 2 ^ (2 * n) →
       let fin := (List.range' i m).foldl (urmul2Step w n an) (res, mm)
       Canon w (2 * n) fin.1 ∧ toNat w fin.1 = (X % 2 ^ (i + m)) * Y := by
@@ -518,7 +488,7 @@ theorem urmul2_loop (hw : 0 < w) (hn : 0 < n) (h64 : w ≠ 64 ∨ nrBlocks w (2 
       rw [hbit, mod_two_pow_succ' X i]
       by_cases hb : X.testBit i = true
       · rw [if_pos hb, if_pos hb]
-        obtain ⟨hc, hcv⟩ := add_spec hw hM h64 hres.shape hmm
+        obtain ⟨hc, hcv⟩ := add_spec hw hM h64 hres.shape hmm.shape
         refine ⟨hc, ?_⟩
         rw [hcv, Nat.add_mod, hmv, ← Nat.add_mod, hv]
         have hle : (X % 2 ^ i + 2 ^ i * 1) * Y ≤ X * Y := by
@@ -535,7 +505,7 @@ theorem urmul2_loop (hw : 0 < w) (hn : 0 < n) (h64 : w ≠ 64 ∨ nrBlocks w (2 
       unfold urmul2Step
       simp only
       rw [hsv, hmv, Nat.mod_mul_mod, Nat.pow_succ, Nat.mul_assoc]
-    have hsh : Shape w (2 * n) (urmul2Step w n an (res, mm) i).2 := by
+    have hsh : Canon w (2 * n) (urmul2Step w n an (res, mm) i).2 := by
       unfold urmul2Step; simp only; exact hs
     have := ih (i + 1) (urmul2Step w n an (res, mm) i).1 (urmul2Step w n an (res, mm) i).2 (by omega) hstep.1 hsh hstep.2 hsm
     simp only at this
@@ -674,7 +644,7 @@ theorem urmul2_spec (hw : 0 < w) (hn : 0 < n) (h64 : w ≠ 64 ∨ nrBlocks w (2 
       exact Nat.lt_of_le_of_lt hYle (Nat.pow_lt_pow_right (by omega) (by omega))
     -- the loop
     have hloop := urmul2_loop hw hn h64 cA.2.1 hX hXYlt (n + 1) 0 (ofInt64 w (2 * n) 0) (assign w (2 * n) (n + 1) B')
-      (by omega) hz cm.shape (by rw [hzv0]; simp [Nat.mod_one]) (by rw [vm']; simp)
+      (by omega) hz cm (by rw [hzv0]; simp [Nat.mod_one]) (by rw [vm']; simp)
     simp only at hloop
     rw [← List.range_eq_range'] at hloop
     obtain ⟨cr, vr⟩ := hloop
@@ -717,10 +687,13 @@ theorem urmul2_spec (hw : 0 < w) (hn : 0 < n) (h64 : w ≠ 64 ∨ nrBlocks w (2 
       apply hfinal _ cr
       rw [vr, hprod]
 
-theorem shrPos_eq_integer (hw : 0 < w) (hn : 0 < n) {a : List Nat} (ha : Wf w a) (s : Nat) :
+/-- below nbits blockbinary's `>>=` is integer's `>>=`; from nbits on blockbinary still returns 0 for every value
+    (not repaired) while integer sign-fills -/
+theorem shrPos_eq_integer (hw : 0 < w) (hn : 0 < n) {a : List Nat} (ha : Wf w a) {s : Nat} (hs : s < n) :
     shrPos w n a s = Integer.shrPos w n a s := by
   unfold shrPos Integer.shrPos
-  rw [sign_eq_integer hw hn ha]
+  have h : ¬ s ≥ n := by omega
+  rw [if_neg h, if_neg h, sign_eq_integer hw hn ha]
 
 /-- arithmetic right shift of blockbinary by `0 ≤ s < n`: floor division of the signed value -/
 theorem shr_spec (hw : 0 < w) (hn : 0 < n) {a : List Nat} (ha : Canon w n a) {s : Nat} (hs : s < n) :
@@ -742,7 +715,7 @@ theorem shr_spec (hw : 0 < w) (hn : 0 < n) {a : List Nat} (ha : Canon w n a) {s 
     rw [e]
     refine ⟨ha, ?_⟩
     simp
-  · rw [if_neg (by omega), if_neg (by omega), Int.toNat_natCast, shrPos_eq_integer hw hn ha.2.1]
+  · rw [if_neg (by omega), if_neg (by omega), Int.toNat_natCast, shrPos_eq_integer hw hn ha.2.1 hs]
     obtain ⟨hc, hv⟩ := Integer.shrPos_spec hw hn ha (by omega : 0 < s) hs
     refine ⟨hc, ?_⟩
     unfold toInt at *
@@ -796,11 +769,11 @@ theorem sub_eq_integer (hw : 0 < w) (hn : 0 < n) (h64 : w ≠ 64 ∨ nrBlocks w 
   obtain ⟨c2, v2⟩ := Integer.sub_spec hw hn h64 ha hb
   exact toNat_inj c1.2.1 c2.2.1 (by rw [c1.1, c2.1]) (by rw [v1, v2])
 
-theorem shr_one_eq_integer (hw : 0 < w) (hn : 0 < n) {a : List Nat} (ha : Wf w a) :
+theorem shr_one_eq_integer (hw : 0 < w) (hn : 1 < n) {a : List Nat} (ha : Wf w a) :
     BB.shr w n a 1 = Integer.shr w n a 1 := by
   unfold BB.shr Integer.shr
   simp only [show ¬ ((1 : Int) = 0) by omega, show ¬ ((1 : Int) < 0) by omega, if_false]
-  exact shrPos_eq_integer hw hn ha _
+  exact shrPos_eq_integer hw (by omega) ha (by simpa using hn)
 
 /-- on canonical states the loop body of `longdivision` is the loop body of integer's `idiv` -/
 theorem ldStep_eq (hw : 0 < w) (hn : 0 < n) (h64N : w ≠ 64 ∨ nrBlocks w (n + 1) = 1) {acc sb : List Nat} (q : List Nat) (i : Nat)
@@ -819,7 +792,7 @@ theorem ldStep_eq (hw : 0 < w) (hn : 0 < n) (h64N : w ≠ 64 ∨ nrBlocks w (n +
       simp [h, this]
     · have : s ≤ a := by omega
       simp [h, this]
-  rw [hle, sub_eq_integer hw hN h64N hacc.shape hsb.shape, shr_one_eq_integer hw hN hsb.2.1]
+  rw [hle, sub_eq_integer hw hN h64N hacc.shape hsb.shape, shr_one_eq_integer hw (by omega) hsb.2.1]
 
 theorem ld_loop (hw : 0 < w) (hn : 0 < n) (h64N : w ≠ 64 ∨ nrBlocks w (n + 1) = 1) {A B : Nat} (hB : 0 < B) (hA : A < 2 ^ n) :
     ∀ (i : Nat) (acc sb q : List Nat), Canon w (n + 1) acc → Canon w (n + 1) sb → Canon w n q → i < n →
@@ -861,11 +834,34 @@ theorem shl_nonneg_spec (hw : 0 < w) (hn : 0 < n) {a : List Nat} (ha : Canon w n
     simp only [Nat.cast_zero, if_true, Nat.pow_zero, Nat.mul_one]
     exact ⟨ha, trivial⟩
   · rw [if_neg (by omega), if_neg (by omega), Int.toNat_natCast]
-    obtain ⟨hs, hv⟩ := shlPos_spec hw hn ha.shape (by omega : 0 < d) hd
-    have hlt : toNat w a * 2 ^ d < 2 ^ (w * nrBlocks w n) :=
-      Nat.lt_of_lt_of_le hfit (Nat.pow_le_pow_right (by omega) (nrBlocks_hi hw hn))
-    rw [Nat.mod_eq_of_lt hlt] at hv
-    exact ⟨⟨hs.1, hs.2, by rw [hv]; exact hfit⟩, hv⟩
+    obtain ⟨hs, hv⟩ := shlPos_spec hw hn ha (by omega : 0 < d)
+    rw [Nat.mod_eq_of_lt hfit] at hv
+    exact ⟨hs, hv⟩
+
+/-- `<<=` of blockbinary / fixpnt with a signed count, every count: canonical result and a value that does not mention
+    the block width (left: ·2^k mod 2^n; right: floor division below nbits, 0 from nbits on — `>>=` is unrepaired) -/
+theorem shl_int_spec (hw : 0 < w) (hn : 0 < n) {a : List Nat} (ha : Canon w n a) (k : Int) :
+    Canon w n (shl w n a k) ∧
+    toNat w (shl w n a k) =
+      (if k = 0 then toNat w a
+       else if k < 0 then
+         (if (-k).toNat < n then ofSigned n (toSigned n (toNat w a) / ((2 ^ (-k).toNat : Nat) : Int)) else 0)
+       else (toNat w a * 2 ^ k.toNat) % 2 ^ n) := by
+  unfold shl
+  by_cases h0 : k = 0
+  · rw [if_pos h0, if_pos h0]; exact ⟨ha, rfl⟩
+  · rw [if_neg h0, if_neg h0]
+    by_cases hneg : k < 0
+    · rw [if_pos hneg, if_pos hneg]
+      by_cases hlt : (-k).toNat < n
+      · rw [if_pos hlt, shrPos_eq_integer hw hn ha.2.1 hlt]
+        exact Integer.shrPos_spec hw hn ha (by omega) hlt
+      · rw [if_neg hlt]
+        unfold shrPos
+        rw [if_pos (by omega), ha.1]
+        exact Integer.zeros_canon hn
+    · rw [if_neg hneg, if_neg hneg]
+      exact shlPos_spec hw hn ha (by omega)
 
 /-- `longdivision`: quotient and remainder of the truncating division of the signed values, wrapped into n bits -/
 theorem longdivision_spec (hw : 0 < w) (hn : 0 < n) (h64 : w ≠ 64 ∨ nrBlocks w n = 1) (h64N : w ≠ 64 ∨ nrBlocks w (n + 1) = 1)
